@@ -181,6 +181,15 @@ class MetadataManager:
 
                 # PHASE 2: Prepare new version
                 new_metadata.last_updated_ms = int(datetime.now().timestamp() * 1000)
+                # The OCC check above identifies a version by (current_snapshot_id,
+                # last_updated_ms). Metadata-only commits (expire, delete_snapshot)
+                # can leave current_snapshot_id unchanged, so the timestamp must be
+                # strictly increasing from one version to the next: with a coarse,
+                # frozen or stepped-back clock two versions would otherwise carry
+                # the same stamp and a stale committer would pass validation and
+                # overwrite an acknowledged commit.
+                if current and new_metadata.last_updated_ms <= current.last_updated_ms:
+                    new_metadata.last_updated_ms = current.last_updated_ms + 1
 
                 # Read current version (and, on CAS backends, the hint's ETag so
                 # the commit point below can be a true compare-and-swap).
